@@ -20,13 +20,13 @@ RULE = ("E1: every labelled DAG on <=3 nodes (iso classes on 4) x every assignme
         "(covariance, subset) with a non-diagonal covariance")
 BOUNDS = {"quick": "n<=3 complete coefficient product (n=3: 25 DAGs x 3^|E| x 2 intercept x 2 variance patterns); n=4: 31 iso classes x 2 coefficient families; "
                    "Gaussian algebra: 2-3 variables, off-diagonals in {-1,0,1}, diagonals {2,3}",
-          "thorough": "n=4: all 543 DAGs x 3 families; wider alphabets"}
+          "thorough": "n=4: all 543 DAGs x 3 families; n=5: 302 iso classes x 3 families and all 29281 labelled DAGs x 1 family; Gaussian algebra on 4 variables (all positive-definite matrices of the alphabet); fit on all 543 4-node DAGs"}
 EXHAUSTIVE = {"quick": True, "thorough": True}
 ASSUMPTIONS = ["the library rounds joint mean/covariance to 8 decimals: tolerance 1e-7", "numpy.linalg (inv, det, lstsq) trusted for the float references; the LGBN joint is exact (Fractions)",
                "residual variance of fit uses the sample (ddof=1) convention"]
 
 COEF = [F(-1), F(1, 2), F(2)]
-NAMES = ["A", "B", "C", "D"]
+NAMES = ["A", "B", "C", "D", "E"]
 
 
 def groups(tier, seed):
@@ -40,11 +40,27 @@ def groups(tier, seed):
     for k in (2, 3):
         out.append({"part": "gauss", "k": k})
     out.append({"part": "fit"})
+    if tier == "thorough":
+        for e in iso_classes(5):
+            for fam in (0, 1, 2):
+                out.append({"part": "lgbn", "n": 5, "edges": [list(x) for x in e], "fam": fam})
+        d5 = all_dags(5)
+        for i in range(0, len(d5), 50):
+            out.append({"part": "lgbn5", "lo": i, "hi": min(i + 50, len(d5))})
+        n4 = len(covs(4))
+        for i in range(0, n4, 100):
+            out.append({"part": "gauss", "k": 4, "lo": i, "hi": min(i + 100, n4)})
+        out.append({"part": "fit", "all4": True})
     return out
 
 
 def run_group(g, tier):
     st = Stats()
+    if g["part"] == "lgbn5":
+        d5 = all_dags(5)
+        for i in range(g["lo"], g["hi"]):
+            _lgbn(st, {"part": "lgbn", "n": 5, "edges": [list(x) for x in d5[i]], "fam": i % 3})
+        return st
     {"lgbn": _lgbn, "gauss": _gauss, "fit": _fit}[g["part"]](st, g)
     return st
 
@@ -204,7 +220,9 @@ def _fit(st, g):
     base_rows = [(1, 0, 2, -1), (0, 1, 1, 2), (2, 2, 0, 0), (-1, 1, 3, 1), (3, -1, 1, 1), (0, 0, -2, 3), (1, 3, 2, 2), (2, -2, 0, -1)]
     st.states += 1
     for n in (2, 3, 4):
-        for e in (all_dags(n) if n <= 3 else iso_classes(4)):
+        for e in (all_dags(n) if n <= 3 or g.get("all4") else iso_classes(4)):
+            if g.get("all4") and n < 4:
+                continue
             for shift in (0, 5):
                 data = pd.DataFrame([[float(x + shift * (i == 1)) for i, x in enumerate(r[:n])] for r in base_rows], columns=NAMES[:n])
                 case = {"g": g, "site": "fit", "coef": [list(x) for x in e], "ivar": [n, shift]}
@@ -256,7 +274,12 @@ def canon_log(c, names, point):
     return float((-0.5 * x.T @ np.asarray(c.K, dtype=float) @ x + np.asarray(c.h, dtype=float).reshape(1, -1) @ x)[0, 0] + float(c.g))
 
 
+_COVS = {}
+
+
 def covs(k):
+    if k in _COVS:
+        return _COVS[k]
     out = []
     off = list(product((-1, 0, 1), repeat=k * (k - 1) // 2))
     for diag in product((2, 3), repeat=k):
@@ -266,6 +289,7 @@ def covs(k):
                 S[i, j] = S[j, i] = val
             if np.all(np.linalg.eigvalsh(S) > 1e-9):
                 out.append(S)
+    _COVS[k] = out
     return out
 
 
@@ -275,10 +299,12 @@ def _gauss(st, g):
 
     k = g["k"]
     names = NAMES[:k]
-    probes = [dict(zip(names, p)) for p in ((0.0,) * k, (1.0, -1.0, 2.0)[:k], (-2.0, 0.5, 1.0)[:k])]
+    probes = [dict(zip(names, p)) for p in ((0.0,) * k, (1.0, -1.0, 2.0, 0.5)[:k], (-2.0, 0.5, 1.0, -1.0)[:k])]
     st.states += 1
     for ci, S in enumerate(covs(k)):
-        for mean in ((0.0,) * k, (1.0, -3.0, 4.0)[:k]):
+        if "lo" in g and not g["lo"] <= ci < g["hi"]:
+            continue
+        for mean in ((0.0,) * k, (1.0, -3.0, 4.0, 2.0)[:k]):
             base = {"g": g, "cov": S.tolist(), "mean": list(mean)}
             nondiag = bool(np.abs(S - np.diag(np.diag(S))).max() > 0)
 
